@@ -28,26 +28,26 @@ Variable cs : N.
 Variable data : list N.
 Hypothesis cs_pos : 0 < cs.
 
-Definition ncl : N := clusters_len cs data.
+Definition nclusters : N := clusters_len cs data.
 (* the bytes of data cluster c *)
 Definition cluster_ref (c : N) : list N := slice ((c - 2) * cs) cs data.
-Definition in_range (c : N) : Prop := 2 <= c < ncl + 2.
+Definition in_range (c : N) : Prop := 2 <= c < nclusters + 2.
 
-Lemma cluster_get_ok c : in_range c -> cluster_get cs data ncl c = Ok (cluster_ref c).
+Lemma cluster_get_ok c : in_range c -> cluster_get cs data nclusters c = Ok (cluster_ref c).
 Proof.
   intros [H1 H2]. unfold cluster_get.
-  replace ((2 <=? c) && (c <? ncl + 2)) with true by lia.
+  replace ((2 <=? c) && (c <? nclusters + 2)) with true by lia.
   rewrite pyslice_spec. unfold cluster_ref. do 2 f_equal. lia.
 Qed.
-Lemma cluster_get_err c : ~ in_range c -> cluster_get cs data ncl c = Err IndexError.
+Lemma cluster_get_err c : ~ in_range c -> cluster_get cs data nclusters c = Err IndexError.
 Proof.
   intros H. unfold cluster_get.
-  destruct ((2 <=? c) && (c <? ncl + 2)) eqn:E; [|reflexivity]. exfalso. apply H. unfold in_range. lia.
+  destruct ((2 <=? c) && (c <? nclusters + 2)) eqn:E; [|reflexivity]. exfalso. apply H. unfold in_range. lia.
 Qed.
 Lemma cluster_ref_length c : in_range c -> length (cluster_ref c) = N.to_nat cs.
 Proof.
   intros [H1 H2]. unfold cluster_ref. apply slice_full_length.
-  unfold ncl, clusters_len in H2. rewrite lenN_length in H2.
+  unfold nclusters, clusters_len in H2. rewrite lenN_length in H2.
   assert (H3 : (c - 2 + 1) * cs <= (N.of_nat (length data) / cs) * cs) by (apply N.mul_le_mono_r; lia).
   lia.
 Qed.
@@ -72,7 +72,7 @@ Proof.
   rewrite map_length. lia.
 Qed.
 
-Definition mk (map : list N) (size pos : N) : fstate := {| f_map := map; f_size := size; f_pos := pos |}.
+Definition mkfile (map : list N) (size pos : N) : fstate := {| f_map := map; f_size := size; f_pos := pos |}.
 
 (* ---------------------------------------------------------------- readinto *)
 Lemma readinto_len n size pos :
@@ -86,10 +86,10 @@ Proof. cbv zeta. unfold raw_len. divmod pos cs. lia. Qed.
 
 Theorem readinto_ok n map size pos :
   wf_file map size ->
-  readinto cs data ncl n (mk map size pos) =
-  Ok (ref_bytes (content map size) pos (raw_len cs size pos n), mk map size (pos + raw_len cs size pos n)).
+  readinto cs data nclusters n (mkfile map size pos) =
+  Ok (ref_bytes (content map size) pos (raw_len cs size pos n), mkfile map size (pos + raw_len cs size pos n)).
 Proof.
-  intros [Hr Hs]. unfold readinto. cbn [f_pos f_size f_map mk].
+  intros [Hr Hs]. unfold readinto. cbn [f_pos f_size f_map mkfile].
   destruct (readinto_len n size pos) as [Hread [Hleft Hright]]. cbv zeta in Hread, Hright.
   rewrite Hread. set (m := raw_len cs size pos n) in *.
   destruct (0 <? Z.of_N m)%Z eqn:Em.
@@ -104,7 +104,7 @@ Proof.
     assert (Hc : in_range c).
     { rewrite Forall_forall in Hr. apply Hr. eapply nth_error_In; eauto. }
     rewrite (cluster_get_ok c Hc). cbn [bind fst snd].
-    unfold set_pos. cbn [f_pos f_size f_map]. rewrite N2Z.id. unfold mk. f_equal. f_equal.
+    unfold set_pos. cbn [f_pos f_size f_map]. rewrite N2Z.id. unfold mkfile. f_equal. f_equal.
     rewrite pyslice_spec, (Hright Hm), Hleft.
     unfold ref_bytes, content.
     change (firstn (N.to_nat m) (skipn (N.to_nat pos) (firstn (N.to_nat size) ?l)))
@@ -137,10 +137,10 @@ Qed.
 (* the statement for RAW reads: a prefix of what remains, at most n bytes, empty only
    when nothing was asked for or nothing is left; the position advances by it *)
 Theorem raw_read_spec n map size pos b st' :
-  wf_file map size -> readinto cs data ncl n (mk map size pos) = Ok (b, st') ->
+  wf_file map size -> readinto cs data nclusters n (mkfile map size pos) = Ok (b, st') ->
   exists m, b = firstn (N.to_nat m) (skipn (N.to_nat pos) (content map size)) /\
             N.of_nat (length b) = m /\ m <= n /\ (m = 0 <-> n = 0 \/ size <= pos) /\
-            st' = mk map size (pos + m).
+            st' = mkfile map size (pos + m).
 Proof.
   intros Hwf H. rewrite (readinto_ok n map size pos Hwf) in H. injection H as <- <-.
   exists (raw_len cs size pos n).
@@ -161,38 +161,38 @@ Qed.
 Lemma readall_loop_ok map size : wf_file map size ->
   forall fuel pos,
   (pos < size -> (length map - N.to_nat (pos / cs) < fuel)%nat) ->
-  readall_loop cs data ncl fuel (mk map size pos) =
-  (Ok (skipn (N.to_nat pos) (content map size)), mk map size (N.max pos size)).
+  readall_loop cs data nclusters fuel (mkfile map size pos) =
+  (Ok (skipn (N.to_nat pos) (content map size)), mkfile map size (N.max pos size)).
 Proof.
   intros Hwf. induction fuel as [|f IH]; intros pos Hfuel.
   - (* no fuel needed only when nothing is left *)
     assert (Hge : size <= pos) by (destruct (N.lt_ge_cases pos size) as [H|H]; [specialize (Hfuel H); lia|exact H]).
-    cbn [readall_loop f_pos f_size mk]. replace (pos <? size) with false by lia.
+    cbn [readall_loop f_pos f_size mkfile]. replace (pos <? size) with false by lia.
     rewrite skipn_all2 by (pose proof (content_length map size Hwf); lia).
-    unfold mk. do 2 f_equal. lia.
-  - cbn [readall_loop f_pos f_size mk]. destruct (pos <? size) eqn:E.
+    unfold mkfile. do 2 f_equal. lia.
+  - cbn [readall_loop f_pos f_size mkfile]. destruct (pos <? size) eqn:E.
     + assert (Hlt : pos < size) by lia. specialize (Hfuel Hlt).
-      change {| f_map := map; f_size := size; f_pos := pos |} with (mk map size pos).
+      change {| f_map := map; f_size := size; f_pos := pos |} with (mkfile map size pos).
       rewrite (readinto_ok _ map size pos Hwf). cbn [fst snd].
       set (m := raw_len cs size pos (size - pos)).
       destruct (raw_len_props size pos (size - pos)) as [H1 [H2 [H3 H4]]]. fold m in H1, H2, H3, H4.
       rewrite IH.
       * cbn [fst snd]. unfold ref_bytes.
         replace (N.to_nat (pos + m)) with (N.to_nat pos + N.to_nat m)%nat by lia.
-        rewrite firstn_then_skipn. unfold mk. do 2 f_equal. lia.
+        rewrite firstn_then_skipn. unfold mkfile. do 2 f_equal. lia.
       * intros Hlt'. assert (Hm : m < size - pos) by (clear - Hlt'; lia).
-        destruct (H4 Hlt' Hm) as [_ H5]. rewrite H5. clear - Hfuel.
+        destruct (H4 Hlt' Hm) as [_ H5]. rewrite H5.
         pose proof (index_in_map map size pos Hwf Hlt) as Hi. clear - Hfuel Hi.
         generalize dependent (pos / cs). intros k Hk Hi. lia.
     + rewrite skipn_all2 by (pose proof (content_length map size Hwf); lia).
-      unfold mk. do 2 f_equal. lia.
+      unfold mkfile. do 2 f_equal. lia.
 Qed.
 
 Theorem readall_ok map size pos : wf_file map size ->
-  readall cs data ncl (mk map size pos) =
-  (Ok (skipn (N.to_nat pos) (content map size)), mk map size (N.max pos size)).
+  readall cs data nclusters (mkfile map size pos) =
+  (Ok (skipn (N.to_nat pos) (content map size)), mkfile map size (N.max pos size)).
 Proof.
-  intros Hwf. unfold readall. cbn [f_map mk]. apply readall_loop_ok; [exact Hwf|].
+  intros Hwf. unfold readall. cbn [f_map mkfile]. apply readall_loop_ok; [exact Hwf|].
   intros _. generalize (N.to_nat (pos / cs)). intros k. lia.
 Qed.
 
@@ -200,8 +200,8 @@ Qed.
 Lemma read_loop_ok map size : wf_file map size ->
   forall fuel n pos,
   (0 < n -> if pos <? size then (length map - N.to_nat (pos / cs) + 2 <= fuel)%nat else (1 <= fuel)%nat) ->
-  read_loop cs data ncl fuel n (mk map size pos) =
-  Ok (firstn (N.to_nat n) (skipn (N.to_nat pos) (content map size)), mk map size (pos + N.min n (size - pos))).
+  read_loop cs data nclusters fuel n (mkfile map size pos) =
+  Ok (firstn (N.to_nat n) (skipn (N.to_nat pos) (content map size)), mkfile map size (pos + N.min n (size - pos))).
 Proof.
   intros Hwf. pose proof (content_length map size Hwf) as Hlen.
   assert (Hidx : forall p, p < size -> (N.to_nat (p / cs) < length map)%nat)
@@ -209,25 +209,26 @@ Proof.
   induction fuel as [|f IH]; intros n pos Hfuel.
   - assert (Hn : n = 0).
     { destruct (N.eq_0_gt_0_cases n) as [H|H]; [exact H|]. specialize (Hfuel H). destruct (pos <? size); lia. }
-    subst n. cbn [read_loop N.eqb]. cbn [N.to_nat firstn]. unfold mk. do 3 f_equal. lia.
+    subst n. cbn [read_loop N.eqb]. cbn [N.to_nat firstn]. unfold mkfile. do 3 f_equal. lia.
   - cbn [read_loop]. destruct (n =? 0) eqn:En.
-    + assert (n = 0) by lia. subst n. cbn [N.to_nat firstn]. unfold mk. do 3 f_equal. lia.
+    + assert (n = 0) by lia. subst n. cbn [N.to_nat firstn]. unfold mkfile. do 3 f_equal. lia.
     + assert (Hn : 0 < n) by lia. specialize (Hfuel Hn).
       rewrite (readinto_ok _ map size pos Hwf). cbn [bind fst snd].
       set (m := raw_len cs size pos n).
       destruct (raw_len_props size pos n) as [H1 [H2 [H3 H4]]]. fold m in H1, H2, H3, H4.
       assert (Hbl : N.of_nat (length (ref_bytes (content map size) pos m)) = m).
       { unfold ref_bytes. rewrite firstn_length, skipn_length. lia. }
-      destruct (ref_bytes (content map size) pos m) as [|x b] eqn:Eb.
+      remember (ref_bytes (content map size) pos m) as bs eqn:Eb.
+      destruct bs as [|x b].
       * cbn [length] in Hbl. assert (Hm : m = 0) by lia. rewrite Hm.
         assert (Hge : size <= pos) by lia.
-        rewrite skipn_all2 by lia. rewrite firstn_nil. unfold mk. do 3 f_equal. lia.
-      * rewrite <- Eb. rewrite lenN_length, Hbl. rewrite IH.
-        -- cbn [bind fst snd]. unfold ref_bytes.
+        rewrite skipn_all2 by lia. rewrite firstn_nil. unfold mkfile. do 3 f_equal. lia.
+      * rewrite lenN_length, Hbl. rewrite IH.
+        -- cbn [bind fst snd]. rewrite Eb. unfold ref_bytes.
            replace (N.to_nat (pos + m)) with (N.to_nat pos + N.to_nat m)%nat by lia.
            rewrite <- skipn_skipn', firstn_then_firstn.
            replace (N.to_nat m + N.to_nat (n - m))%nat with (N.to_nat n) by lia.
-           unfold mk. do 3 f_equal. lia.
+           unfold mkfile. do 3 f_equal. lia.
         -- intros Hn'. assert (Hlt : pos < size) by (cbn [length] in Hbl; lia).
            replace (pos <? size) with true in Hfuel by lia.
            destruct (pos + m <? size) eqn:E2; [|lia].
@@ -239,21 +240,21 @@ Proof.
 Qed.
 
 Theorem read_loop_refines map size n pos : wf_file map size ->
-  read_full cs data ncl n (mk map size pos) =
-  Ok (firstn (N.to_nat n) (skipn (N.to_nat pos) (content map size)), mk map size (pos + N.min n (size - pos))).
+  read_full cs data nclusters n (mkfile map size pos) =
+  Ok (firstn (N.to_nat n) (skipn (N.to_nat pos) (content map size)), mkfile map size (pos + N.min n (size - pos))).
 Proof.
-  intros Hwf. unfold read_full. cbn [f_map mk]. apply read_loop_ok; [exact Hwf|].
-  intros _. destruct (pos <? size); lia.
+  intros Hwf. unfold read_full. cbn [f_map mkfile]. apply read_loop_ok; [exact Hwf|].
+  intros _. generalize (N.to_nat (pos / cs)). intros k. destruct (pos <? size); lia.
 Qed.
 
 (* ------------------------------------------- sequences of operations *)
 Lemma step_refines map size pos o : wf_file map size ->
-  step cs data ncl o (mk map size pos) =
-  (fst (ref_step cs (content map size) o pos), mk map size (snd (ref_step cs (content map size) o pos))).
+  step cs data nclusters o (mkfile map size pos) =
+  (fst (ref_step cs (content map size) o pos), mkfile map size (snd (ref_step cs (content map size) o pos))).
 Proof.
   intros Hwf. pose proof (content_length map size Hwf) as Hlen.
   destruct o as [off w|n|n|]; unfold step, ref_step; rewrite Hlen.
-  - unfold seek. cbn [f_pos f_size mk].
+  - unfold seek. cbn [f_pos f_size mkfile].
     destruct w as [|[p|p|]]; cbn [bind]; try reflexivity;
       try (destruct p as [p|p|]; cbn [bind]; try reflexivity).
     all: match goal with |- context [(?z <? 0)%Z] => destruct (z <? 0)%Z; reflexivity end.
@@ -269,7 +270,7 @@ Qed.
    sequence gives on the file content held in memory with a plain position. *)
 Theorem read_refines map size : wf_file map size ->
   forall ops pos,
-  run cs data ncl ops (mk map size pos) = ref_run cs (content map size) ops pos.
+  run cs data nclusters ops (mkfile map size pos) = ref_run cs (content map size) ops pos.
 Proof.
   intros Hwf. induction ops as [|o ops IH]; intros pos; [reflexivity|].
   cbn [run ref_run]. rewrite (step_refines map size pos o Hwf). cbn [fst snd].
@@ -321,3 +322,39 @@ Proof.
   - specialize (Hri k). destruct (readinto _ _ _ _ _) as [[b st']|e]; cbn [snd] in *; auto.
   - apply readall_loop_keeps.
 Qed.
+
+(* ------------------------------------------------------------- non-vacuity *)
+(* 10 clusters of 4 bytes (byte i has value i); a fragmented 3-cluster file [7; 3; 9]
+   of 10 bytes: reads straddling cluster boundaries come back short, exactly as on
+   the in-memory content *)
+Definition ex_data : list N := map N.of_nat (seq 0 40).
+Definition ex_ops : list op :=
+  [ORead 3; ORead 3; OSeek (-4) 2; OReadinto 10; OReadall; ORead 5; OSeek (-1) 1;
+   OSeek (-20) 1; OSeek 2 0; ORead (-1); OSeek 0 3; OSeek 5 0; OReadinto 2; OReadinto 2].
+Example read_example :
+  run_file 4 ex_data [7; 3; 9] 10 ex_ops =
+  [RBytes [20; 21; 22]; RBytes [23]; RPos 6; RBytes [6; 7]; RBytes [28; 29]; RBytes []; RPos 9;
+   RErr OSError_Other; RPos 2; RBytes [22; 23; 4; 5; 6; 7; 28; 29]; RErr ValueError; RPos 5;
+   RBytes [5; 6]; RBytes [7]].
+Proof. vm_compute. reflexivity. Qed.
+Example read_example_wf : wf_file 4 ex_data [7; 3; 9] 10 /\ content 4 ex_data [7; 3; 9] 10 = [20; 21; 22; 23; 4; 5; 6; 7; 28; 29].
+Proof.
+  split; [|vm_compute; reflexivity]. split.
+  - assert (E : nclusters 4 ex_data = 10) by (vm_compute; reflexivity).
+    assert (R : forall c, 2 <= c < 12 -> in_range 4 ex_data c) by (intros c Hc; unfold in_range; rewrite E; lia).
+    constructor; [apply R; lia|]. constructor; [apply R; lia|]. constructor; [apply R; lia|]. constructor.
+  - cbn. lia.
+Qed.
+Example read_example_ref :
+  ref_run 4 [20; 21; 22; 23; 4; 5; 6; 7; 28; 29] ex_ops 0 = run_file 4 ex_data [7; 3; 9] 10 ex_ops.
+Proof. vm_compute. reflexivity. Qed.
+(* a chain shorter than the size: the code raises IndexError, and so does the model *)
+Example read_short_chain :
+  run_file 4 ex_data [7] 6 [ORead 9; ORead 9; OSeek 0 0; OReadall; ORead 1] =
+  [RBytes [20; 21; 22; 23]; RErr IndexError; RPos 0; RErr IndexError; RErr IndexError].
+Proof. vm_compute. reflexivity. Qed.
+
+Print Assumptions read_refines.
+Print Assumptions read_loop_refines.
+Print Assumptions raw_read_spec.
+Print Assumptions run_preserves_file.
